@@ -162,7 +162,8 @@ Reproduces(c, cuts, pf, rs, fill, o) ==
                        \/ \A i \in 1..Len(o.hs) : i <= 40 =>
                              LET key == Flip(Sub0(t.H.buf, o.hs[i][1], o.hs[i][2]))
                                  eq == {<<t.H.idx[j][3], t.H.idx[j][4]>> : j \in {j \in 1..Len(t.H.idx) : ICmp(KeyOf(t.H.buf, t.H.idx[j]), key) = 0}}
-                             IN IF eq = {} THEN Pair(o.lk[i]) = <<-1, 0>> ELSE Pair(o.lk[i]) \in eq
+                                 f == HFind(t.H.buf, t.H.idx, key)          \* the binary search of the transcription
+                             IN IF f[1] = -1 THEN Pair(o.lk[i]) = <<-1, 0>> ELSE Pair(o.lk[i]) \in eq     \* which of several equal keys is unspecified
                     /\ o.ch = IsChunked(t.H) /\ o.bs = BodySize(c.m.kind, t.H) /\ o.pbo = t.H.body[1])
           /\ Has(o, "body") /\ o.body = t.body /\ Expand(o.rets, 1) = t.rets
 ExplainO(c, r) == IF Reproduces(c, r.ex, r.pf, r.rs, r.fill, r.o) THEN {} ELSE {"not reproduced by the transcription"}
